@@ -26,6 +26,39 @@ MANIFEST_ENTRY = {
 }
 
 
+KNOWN_WITNESS_SRC = """
+import json, warnings
+import numpy as np, pandas as pd
+warnings.filterwarnings("ignore")
+import bt
+dts = pd.date_range("2020-01-01", periods=5)
+data = pd.DataFrame({"a": [100.0, 102, 101, 104, 103]}, index=dts)
+spread = pd.DataFrame({"a": 2.0}, index=dts)
+tw = pd.DataFrame({"a": [0.9, 0.2, 0.7]}, index=[dts[0], dts[2], dts[3]])
+comm = lambda q, p: abs(q) * p * 0.001                     # a commission that depends on its price argument ...
+s = bt.Strategy("s", [bt.algos.WeighTarget(tw), bt.algos.Rebalance()], children=[bt.Security("a")])
+t = bt.Backtest(s, data, commissions=comm, additional_data={"bidoffer": spread}, progress_bar=False); t.run()      # ... with a bid/offer spread
+trans = bt.backtest.Result(t).get_transactions()
+r = bt.Strategy("r", [bt.algos.ReplayTransactions("transactions")], children=[bt.Security("a")])
+t2 = bt.Backtest(r, data, commissions=comm, additional_data={"bidoffer": spread, "transactions": trans}, progress_bar=False); t2.run()
+v1, v2 = t.strategy.values.values, t2.strategy.values.values
+same_pos = bool(np.array_equal(t.positions.values, t2.positions.values))
+worst = float(np.max(np.abs(v1 - v2)))
+print("JSON:" + json.dumps(dict(still=(same_pos and worst > 1e-6), positions_equal=same_pos, worst_value_difference=worst, fees=[float(t.strategy.fees.sum()), float(t2.strategy.fees.sum())])))
+"""
+
+
+def known_witness(f):
+    """replays the recorded failing run of a known finding on the current tree (real code)"""
+    if f["id"] != "C18-replay-charges-the-commission-on-the-execution-price":
+        return None
+    from pyvc.replay import Scratch
+
+    with Scratch() as sc:
+        d = sc.run_json(KNOWN_WITNESS_SRC, timeout=120)
+    return bool(d.get("still"))
+
+
 def _tasks_core(tier, seed):
     return [
         func("bt.backtest.Backtest.weights", variant="mv"), func("bt.backtest.Backtest.weights", variant="fi"),
